@@ -833,7 +833,7 @@ func (n *getTagEval) Eval(env Env) (types.Value, error) {
 
 	var zero types.EntityUID
 	if eid == zero {
-		return zeroValue(), fmt.Errorf("cannot access tag `%s` of %w", n.rhs, errUnspecifiedEntity)
+		return zeroValue(), fmt.Errorf("cannot access tag of %w", errUnspecifiedEntity)
 	}
 
 	t, err := evalString(n.rhs, env)
